@@ -212,6 +212,21 @@ Touch(e) ==
      /\ viol' = viol \cup (IF good THEN {} ELSE {"H:touch-changes-the-molecule"})
   /\ UNCHANGED <<cls, root, prov, strOf, canonOf, rootPart, sers, strs, mols, results>>
 
+\* a library call that is not supposed to touch its argument (the molfile writer, the permutation helper) changed chemically
+\* meaningful entries of it in place (e.by names the call).  The session goes on with the object as it now is: the same molecule when
+\* colours and bonds are what they were (an explicit 0 is the default), a new one otherwise.  No listed property is about this step
+\* alone (R:); what later calls on the object return is judged as usual.
+Changed(e) ==
+  /\ e.op = "changed" /\ Known(objs, e.obj)
+  /\ LET G == objs[e.obj]  H == GraphOf(e.g)  same == IdentityEq(G, H) /\ G.ord = H.ord  fresh == 0 - e.obj IN
+     /\ objs' = [objs EXCEPT ![e.obj] = H]
+     /\ cls' = IF same THEN cls ELSE [cls EXCEPT ![e.obj] = fresh]
+     /\ root' = IF same THEN root ELSE [root EXCEPT ![e.obj] = [a \in Atoms(H) |-> a]]
+     /\ prov' = IF same THEN (IF prov[e.obj].g = G THEN [prov EXCEPT ![e.obj].g = H] ELSE prov)
+                ELSE [prov EXCEPT ![e.obj] = [cl |-> fresh, g |-> H, rt |-> [a \in Atoms(H) |-> a], pstr |-> ""]]
+     /\ viol' = viol \cup {"R:" \o e.by \o "-changed-its-argument"}
+  /\ UNCHANGED <<strOf, canonOf, rootPart, sers, strs, mols, results>>
+
 \* two objects are stated to be the same molecule for a reason the specification verified elsewhere
 \* (e.g. both were read from texts whose decoded molecules agree): classes are merged
 SameMol(e) ==
@@ -596,7 +611,7 @@ WriteText(e) ==
   /\ UNCHANGED <<objs, cls, root, prov, strOf, canonOf, rootPart, sers, strs, mols, results>>
 
 Step(e) == \/ Input(e) \/ Derive(e) \/ Mutate(e) \/ Touch(e) \/ SameMol(e) \/ Canonicalize(e) \/ Automorphism(e) \/ Serialize(e)
-           \/ Raised(e) \/ Completed(e) \/ Emitted(e) \/ Parse(e) \/ ReadText(e) \/ SameText(e) \/ DistinctText(e) \/ WriteText(e) \/ StringIn(e) \/ Respell(e) \/ Result(e) \/ Permute(e) \/ SerializeRaw(e) \/ Build(e)
+           \/ Raised(e) \/ Completed(e) \/ Emitted(e) \/ Parse(e) \/ ReadText(e) \/ SameText(e) \/ DistinctText(e) \/ WriteText(e) \/ StringIn(e) \/ Respell(e) \/ Result(e) \/ Permute(e) \/ SerializeRaw(e) \/ Build(e) \/ Changed(e)
 
 \* ------------------------------------------------------------------ the properties, as state predicates
 Clean(prefix) == \A c \in viol : SubSeq(c, 1, Len(prefix)) # prefix
